@@ -118,6 +118,62 @@ def structure_replays(run):
     run.fixed_checked += [x['program'] for x in done]
 
 
+def _sweep_one(item):
+    from engines import nm
+    label, src, flags = item
+    c = nm.compile_src(src, flags, want_c=True, timeout=60)
+    return {'label': label, 'src': src, 'flags': list(flags), 'verdict': c.verdict, 'error': c.error, 'stage': c.stage}
+
+
+def structure_sweep(run, tier):
+    """By-product sweep, not a solver claim: every program family the other checks generate (regexes, clause sets, statement programs,
+    macro programs incl. ill-kinded calls, wait programs) plus the corpora and the repo's *.fail tests is pushed through the whole real
+    compiler once; an exception that is not a diagnosed error, or a time-out, is a C18 violation (confirmed through the command line)."""
+    import subprocess, tempfile, shutil
+    from engines import nm, gen_re, gen_c01, gen_macro, dfz
+    n = 1 if tier == 'quick' else 6
+    items = []
+    for src, form, kind in gen_re.random_regexes(300 * n):
+        items.append(('regex:' + src, gen_re.regex_program(src), ()))
+    for i, src in enumerate(gen_c01.programs(chk.seed(), 60 * n)):
+        items.append((f'gen_c01:{i}', src, ()))
+        items.append((f'gen_c01:{i} -O3 +eof', src, ('-O3', '-feof-support')))
+    for name, src, _ in gen_macro.programs(chk.seed(), 10 * n):
+        items.append(('gen_macro:' + name, src, ()))
+    for pth in nm.corpus_files(('example', 'ok', 'fail', 'verif', 'cycle')):
+        items.append((os.path.relpath(pth, chk.REPO) if pth.startswith(chk.REPO) else os.path.relpath(pth, chk.VERIF), nm.read(pth), ('-O3',)))
+    counts = {}
+    bad = []
+    for r in dfz.pool_map(_sweep_one, items, chunksize=8):
+        v = r.get('verdict', 'harness')
+        counts[v] = counts.get(v, 0) + 1
+        if v in ('crash', 'timeout'):
+            bad.append(r)
+        elif v == 'harness':
+            run.harness_error('structure sweep worker failed: ' + str(r)[:200])
+    for r in bad[:20]:
+        d = tempfile.mkdtemp(prefix='c18w-')
+        try:
+            f = os.path.join(d, 'p.nmfu')
+            open(f, 'w').write(r['src'])
+            try:
+                p = subprocess.run([PY, os.path.join(chk.REPO, 'nmfu.py'), *nm_split_args(r['src']), *r['flags'], f, '-o' + os.path.join(d, 'out')], capture_output=True, text=True, timeout=180, cwd=d)
+                rc, err = p.returncode, p.stderr
+            except subprocess.TimeoutExpired:
+                rc, err = 'timeout', ''
+        finally:
+            shutil.rmtree(d, ignore_errors=True)
+        confirmed = rc == 'timeout' or 'Traceback' in err
+        last = (err.strip().splitlines() or [''])[-1]
+        if confirmed:
+            run.violation('C18/structure-sweep:' + r['label'][:80], {'program': r['label'], 'flags': r['flags'], 'source': r['src'], 'exception': str(r['error'])[:300], 'stage': r['stage'],
+                                                                     'exit': rc, 'stderr_last_line': last[:300], 'replay': {'reproduced': True, 'how': 'nmfu.py run as a subprocess on the program'}},
+                          f'the compiler dies with an internal exception / does not finish: {last[:160] or rc}')
+        else:
+            run.harness_error(f'in-process compile of {r["label"]} gave {r["verdict"]} ({r["error"]}) but the command line run did not crash (exit {rc})')
+    run.cov['structure_sweep'] = {'note': 'by-product sweep (concrete, not a solver obligation)', 'programs_compiled': len(items), 'outcomes': counts}
+
+
 def nm_split_args(src):
     out = []
     for line in src.splitlines():
@@ -149,6 +205,7 @@ def main(tier, replay):
         run.bounds.update({ob: [c.get('label') + (f" ({c.get('parts')} parts)" if c.get('parts', 1) > 1 else '') for c in cs]
                            for ob, cs in cfgs.items()})
     structure_replays(run)
+    structure_sweep(run, tier)
     return run.finish(EXPLANATION)
 
 
